@@ -19,7 +19,7 @@ RULE = ('closed curve (UnitSquare, PiSquare, LShape, Circle; default, enriched a
         'model, union / intersection intervals, and per patch the Slobodeckij double integral: exact rational closed form '
         'on straight same-side patches (1e-8), independent graded numerical reference on corner, seam and circle '
         'patches (1e-4 at orders 17, 19; pieces of length ratio > 4 excluded and counted); weighted L2 against Gauss '
-        'integration of r^2 of sufficient order; estimate_sobolev serial == pool (1..16 workers, two successive '
+        'integration of r^2 of sufficient order; estimate_sobolev (element list in creation order, reversed, sorted by (t, x), rotated) serial == pool (1..16 workers, two successive '
         'residuals on one estimator) bitwise, == per-element sums (1e-13); rotation of mesh and residual by whole roots '
         'maps the indicator vector onto itself (1e-8). Non-trivial = element with a seam, corner or hanging-node '
         'neighbour, or N >= 9; distinct by (mesh, element, residual, order).')
@@ -382,6 +382,16 @@ def body(case, rec, cap):
                 rec.nontriv([case['spec'], case['ops'], repr(e), case['res'], N])
         elif kind == 'paths':
             ref2 = Ref(live, g, case['res2'])
+            # the element list may be handed over in any order
+            order = ['creation', 'reversed', 'by_t_x', 'rotated'][case['ei'] % 4]
+            if order == 'reversed':
+                elems = elems[::-1]
+            elif order == 'by_t_x':
+                elems = sorted(elems, key=lambda e: (e.time_interval[0], e.space_interval[0], e.time_interval[1]))
+            elif order == 'rotated':
+                k0 = max(1, len(elems) // 3)
+                elems = elems[k0:] + elems[:k0]
+            rec.cls('paths_order_' + order)
             with repo.quiet():
                 ser1 = np.asarray(EE.estimate_sobolev(elems, residual, use_mp=False), dtype=float)
                 ser2 = np.asarray(EE.estimate_sobolev(elems, ref2.res, use_mp=False), dtype=float)
